@@ -88,37 +88,29 @@ Theorem C06_built_settings_are_the_configured_ones :
 Proof. exact build_enabled_fields. Qed.
 Print Assumptions C06_built_settings_are_the_configured_ones.
 
-(* several sites may share a host name: all of them then get settings equal to their own (the
-   compatibility assert), for every proper host name.  For the catch-all spellings "", 0.0.0.0
-   and :: this is false of the code — see the _refuted theorem below. *)
-Theorem C06_same_name_sites_get_their_own_settings_partial :
+(* several sites may share a host name — or the catch-all key, which the spellings "", 0.0.0.0
+   and :: all map to: every one of them then gets settings equal to its own (the compatibility
+   assert is applied under the key the config is stored by). *)
+Theorem C06_same_name_sites_get_their_own_settings :
   forall dc bad cs g c,
   make_tls_config dc bad cs = MkGroup g -> In (Some c) cs ->
-  host c <> [] -> key_of (host c) = host c ->
-  exists i c' ob, mget (host c) g = Some (i, c', ob) /\ build dc bad c = Some ob.
-Proof. intros dc bad cs g c H Hin Hne Hk. exact (group_own_settings dc bad cs g c H Hin (conj Hne Hk)). Qed.
-Print Assumptions C06_same_name_sites_get_their_own_settings_partial.
+  exists i c' ob, mget (key_of (host c)) g = Some (i, c', ob) /\ build dc bad c = Some ob.
+Proof. exact group_own_settings. Qed.
+Print Assumptions C06_same_name_sites_get_their_own_settings.
 
 Example C06_same_name_sites_nonvacuous :
-  exists g, make_tls_config (default_ciphers true) []
+  (exists g, make_tls_config (default_ciphers true) []
               [Some (mkT (bs "a.com"%string) true TLS12 TLS13 [] [] [] true 2 [] false);
-               Some (mkT (bs "a.com"%string) true TLS12 TLS13 [] [] [] true 2 [] true)] = MkGroup g.
-Proof. eexists. vm_compute. reflexivity. Qed.
-
-Theorem C06_same_name_sites_get_their_own_settings_refuted :
-  exists dc bad cs g c i c' b b',
-  make_tls_config dc bad cs = MkGroup g /\ In (Some c) cs /\
-  mget (key_of (host c)) g = Some (i, c', Some b') /\ build dc bad c = Some (Some b) /\
-  b_cauth b <> b_cauth b'.
-Proof.
-  exists (default_ciphers true), [],
+               Some (mkT (bs "a.com"%string) true TLS12 TLS13 [] [] [] true 2 [] true)] = MkGroup g) /\
+  (exists g, make_tls_config (default_ciphers true) []
+              [Some (mkT (bs "0.0.0.0"%string) true TLS12 TLS13 [] [] [] true 2 [] false);
+               Some (mkT (bs "::"%string) true TLS12 TLS13 [] [] [] true 2 [] false);
+               Some (mkT [] true TLS12 TLS13 [] [] [] true 2 [] false)] = MkGroup g) /\
+  (* catch-all spellings with different client-certificate policies are a configuration error *)
+  make_tls_config (default_ciphers true) []
     [Some (mkT (bs "0.0.0.0"%string) true TLS12 TLS13 [] [] [] true 2 [] false);
-     Some (mkT (bs "::"%string) true TLS12 TLS13 [] [] [] true 0 [] false)].
-  eexists. eexists. eexists. eexists. eexists. eexists.
-  split; [vm_compute; reflexivity|]. split; [left; reflexivity|].
-  split; [vm_compute; reflexivity|]. split; [vm_compute; reflexivity|]. vm_compute. discriminate.
-Qed.
-Print Assumptions C06_same_name_sites_get_their_own_settings_refuted.
+     Some (mkT (bs "::"%string) true TLS12 TLS13 [] [] [] true 0 [] false)] = MkErr 3.
+Proof. split; [eexists; vm_compute; reflexivity|]. split; [eexists; vm_compute; reflexivity|]. vm_compute. reflexivity. Qed.
 
 (* ---- TLS 1.2 is the minimum unless the site configures otherwise ---- *)
 Theorem C06_min_version_default_tls12 :
@@ -225,17 +217,16 @@ Print Assumptions C06_forbidden_only_on_mismatch.
 
 (* The stronger reading of the clause: the handshake of a request served by a site that demands
    client certificates was governed by settings equal to that site's own (hence the same
-   client-certificate policy).  It holds for every site set keyed consistently (vhost key = TLS
-   host name, no 0.0.0.0 / :: spellings, no site answering for the router's fallback hosts through
-   "*" labels), every non-empty SNI without surrounding white space and EVERY Host header (the
-   strict test looks at the name the router selected the site by). *)
+   client-certificate policy).  It holds for every site set (each site keyed in the router by the
+   host name of its TLS config; 0.0.0.0 / :: / "" spellings included) in which no site is named
+   by a wildcard candidate of the router's fallback hosts ("*", "*.*.*.*", ...), every non-empty
+   SNI without surrounding white space and EVERY Host header (the strict test looks at the name
+   the router selected the site by). *)
 Theorem C06_clientauth_policy_governs_partial :
   forall dc bad sites g dflt conn sni rhost v s,
   make_tls_config dc bad (map (fun s => Some (s_tls s)) sites) = MkGroup g ->
-  (forall s, In s sites -> vhost_key (s_addr s) = host (s_tls s) /\ key_of (host (s_tls s)) = host (s_tls s)) ->
-  match_host (vhosts sites) (bs "0.0.0.0"%string) = None ->
-  match_host (vhosts sites) (bs "::"%string) = None ->
-  mget (bs "*"%string) (vhosts sites) = None ->
+  (forall s, In s sites -> vhost_key (s_addr s) = host (s_tls s)) ->
+  (forall c, In c fallback_star_names -> mget c (vhosts sites) = None) ->
   serve sites (Some sni) rhost = Served v -> nth_error sites v = Some s -> demands (s_tls s) = true ->
   trim_space sni = sni -> sni <> [] ->
   exists k i c ob, get_config g dflt conn sni = Found k (i, c, ob) /\ build dc bad (s_tls s) = Some ob.
@@ -246,21 +237,38 @@ Example C06_clientauth_policy_governs_nonvacuous :
   let sites := [mtls_site "*.a.com:443"%string "*.a.com"%string; open_site "b.com:443"%string "b.com"%string;
                 open_site ":443"%string ""%string] in
   (exists g, make_tls_config (default_ciphers true) [] (map (fun s => Some (s_tls s)) sites) = MkGroup g) /\
-  (forall s, In s sites -> vhost_key (s_addr s) = host (s_tls s) /\ key_of (host (s_tls s)) = host (s_tls s)) /\
-  match_host (vhosts sites) (bs "0.0.0.0"%string) = None /\
-  match_host (vhosts sites) (bs "::"%string) = None /\
-  mget (bs "*"%string) (vhosts sites) = None /\
+  (forall s, In s sites -> vhost_key (s_addr s) = host (s_tls s)) /\
+  (forall c, In c fallback_star_names -> mget c (vhosts sites) = None) /\
   serve sites (Some (bs "X.a.com"%string)) (bs "x.A.com:443"%string) = Served 0.
 Proof.
   split; [eexists; vm_compute; reflexivity|].
-  split; [intros s [<-|[<-|[<-|[]]]]; vm_compute; split; reflexivity|].
-  vm_compute. repeat split.
+  split; [intros s [<-|[<-|[<-|[]]]]; vm_compute; reflexivity|].
+  split; [|vm_compute; reflexivity].
+  intros c Hc. vm_compute in Hc. repeat (destruct Hc as [<-|Hc]; [vm_compute; reflexivity|]). destruct Hc.
+Qed.
+
+(* the unspecified-address spellings are covered: client-certificate sites 0.0.0.0 and :: answer
+   for an unmatched name through the router's fallback hosts, and the catch-all config that
+   governs the handshake demands the certificates *)
+Example C06_clientauth_policy_governs_nonvacuous_unspecified :
+  let sites := [mtls_site "0.0.0.0:443"%string "0.0.0.0"%string; mtls_site "[::]:443"%string "::"%string;
+                open_site "b.com:443"%string "b.com"%string] in
+  (forall s, In s sites -> vhost_key (s_addr s) = host (s_tls s)) /\
+  (forall c, In c fallback_star_names -> mget c (vhosts sites) = None) /\
+  serve sites (Some (bs "z.org"%string)) (bs "z.org"%string) = Served 0 /\
+  exists g i c b, make_tls_config (default_ciphers true) [] (map (fun s => Some (s_tls s)) sites) = MkGroup g /\
+                  get_config g [] None (bs "z.org"%string) = Found [] (i, c, Some b) /\ b_cauth b = 2.
+Proof.
+  split; [intros s [<-|[<-|[<-|[]]]]; vm_compute; reflexivity|].
+  split; [intros c Hc; vm_compute in Hc;
+          repeat (destruct Hc as [<-|Hc]; [vm_compute; reflexivity|]); destruct Hc|].
+  split; [vm_compute; reflexivity|].
+  do 4 eexists. split; [vm_compute; reflexivity|]. split; vm_compute; reflexivity.
 Qed.
 
 (* Without those side conditions the stronger reading — the handshake of a request served by a client-certificate site was
    governed by that site's own policy — is false of the code.  Witnesses (each replayed on the
-   real server, corpus/C06): empty SNI + empty Host with a local-IP site; 0.0.0.0 and ::
-   sharing the catch-all key without the compatibility assert; a site named "*". *)
+   real server, corpus/C06): empty SNI + empty Host with a local-IP site; a site named "*". *)
 
 
 Theorem C06_clientauth_policy_governs_refuted_empty_names :
@@ -272,16 +280,6 @@ Proof.
   split; [vm_compute; reflexivity|]. split; [vm_compute; reflexivity|]. vm_compute. discriminate.
 Qed.
 Print Assumptions C06_clientauth_policy_governs_refuted_empty_names.
-
-Theorem C06_clientauth_policy_governs_refuted_unspecified_alias :
-  served_under_foreign_policy [mtls_site "0.0.0.0:443"%string "0.0.0.0"%string; open_site "[::]:443"%string "::"%string]
-                              [] None (bs "z.org"%string) (bs "z.org"%string).
-Proof.
-  unfold served_under_foreign_policy. do 7 eexists.
-  split; [vm_compute; reflexivity|]. split; [vm_compute; reflexivity|]. split; [vm_compute; reflexivity|].
-  split; [vm_compute; reflexivity|]. split; [vm_compute; reflexivity|]. vm_compute. discriminate.
-Qed.
-Print Assumptions C06_clientauth_policy_governs_refuted_unspecified_alias.
 
 Theorem C06_clientauth_policy_governs_refuted_all_wildcard_site :
   served_under_foreign_policy [mtls_site "*:443"%string "*"%string; open_site ":443"%string ""%string]
